@@ -1,5 +1,6 @@
 SPECIFICATION Spec
 CONSTANTS W = 13
+          FullA = FALSE
           FullB = FALSE
 INVARIANT AllOk
 CHECK_DEADLOCK FALSE
